@@ -1,4 +1,547 @@
 package harness
 
-// placeholder until the stdio-service part is built
-func scenarioC20Service(rc *RunCtx) *Violation { return nil }
+// C20 part (b): the real stdio service loop (cmd/esbuild/service.go as library
+// pkg/verifsvc) over simulated stdin/stdout. The client below plays the JavaScript
+// host; its encoder/decoder are written from the wire format, not imported.
+
+import (
+	"encoding/binary"
+	"fmt"
+	"sort"
+	"strings"
+	"sync"
+
+	"github.com/evanw/esbuild/pkg/verifsim"
+	"github.com/evanw/esbuild/pkg/verifsvc"
+)
+
+// ---- wire format (own implementation) ----
+
+func encValue(b []byte, v interface{}) []byte {
+	u32 := func(b []byte, x uint32) []byte {
+		var t [4]byte
+		binary.LittleEndian.PutUint32(t[:], x)
+		return append(b, t[:]...)
+	}
+	switch x := v.(type) {
+	case nil:
+		return append(b, 0)
+	case bool:
+		if x {
+			return append(b, 1, 1)
+		}
+		return append(b, 1, 0)
+	case int:
+		return u32(append(b, 2), uint32(x))
+	case string:
+		return append(u32(append(b, 3), uint32(len(x))), x...)
+	case []byte:
+		return append(u32(append(b, 4), uint32(len(x))), x...)
+	case []interface{}:
+		b = u32(append(b, 5), uint32(len(x)))
+		for _, it := range x {
+			b = encValue(b, it)
+		}
+		return b
+	case map[string]interface{}:
+		ks := make([]string, 0, len(x))
+		for k := range x {
+			ks = append(ks, k)
+		}
+		sort.Strings(ks)
+		b = u32(append(b, 6), uint32(len(ks)))
+		for _, k := range ks {
+			b = append(u32(b, uint32(len(k))), k...)
+			b = encValue(b, x[k])
+		}
+		return b
+	}
+	panic(fmt.Sprintf("encValue: %T", v))
+}
+
+func encPacket(id uint32, isRequest bool, v interface{}) []byte {
+	body := make([]byte, 4)
+	if isRequest {
+		binary.LittleEndian.PutUint32(body, id<<1)
+	} else {
+		binary.LittleEndian.PutUint32(body, id<<1|1)
+	}
+	body = encValue(body, v)
+	out := make([]byte, 4, 4+len(body))
+	binary.LittleEndian.PutUint32(out, uint32(len(body)))
+	return append(out, body...)
+}
+
+type decoder struct {
+	b   []byte
+	err string
+}
+
+func (d *decoder) u32() uint32 {
+	if len(d.b) < 4 {
+		d.err = "truncated"
+		return 0
+	}
+	v := binary.LittleEndian.Uint32(d.b)
+	d.b = d.b[4:]
+	return v
+}
+
+func (d *decoder) bytes(n uint32) []byte {
+	if uint32(len(d.b)) < n {
+		d.err = "truncated"
+		return nil
+	}
+	v := d.b[:n]
+	d.b = d.b[n:]
+	return v
+}
+
+func (d *decoder) value(depth int) interface{} {
+	if d.err != "" || depth > 64 {
+		if depth > 64 {
+			d.err = "too deep"
+		}
+		return nil
+	}
+	if len(d.b) < 1 {
+		d.err = "truncated"
+		return nil
+	}
+	k := d.b[0]
+	d.b = d.b[1:]
+	switch k {
+	case 0:
+		return nil
+	case 1:
+		if len(d.b) < 1 {
+			d.err = "truncated"
+			return nil
+		}
+		v := d.b[0] != 0
+		d.b = d.b[1:]
+		return v
+	case 2:
+		return int(d.u32())
+	case 3:
+		return string(d.bytes(d.u32()))
+	case 4:
+		return append([]byte(nil), d.bytes(d.u32())...)
+	case 5:
+		n := d.u32()
+		out := []interface{}{}
+		for i := uint32(0); i < n && d.err == ""; i++ {
+			out = append(out, d.value(depth+1))
+		}
+		return out
+	case 6:
+		n := d.u32()
+		out := map[string]interface{}{}
+		for i := uint32(0); i < n && d.err == ""; i++ {
+			key := string(d.bytes(d.u32()))
+			out[key] = d.value(depth + 1)
+		}
+		return out
+	}
+	d.err = fmt.Sprintf("unknown type tag %d", k)
+	return nil
+}
+
+// ---- client ----
+
+type deferredAns struct {
+	id  uint32
+	pkt []byte
+}
+
+type svcClient struct {
+	st          *verifsim.Stdio
+	g           G
+	buf         []byte
+	gotVersion  bool
+	nextID      uint32
+	outstanding map[uint32]string      // our requests awaiting a response: id -> description
+	responses   map[uint32]interface{} // id -> response value
+	order       []uint32
+	svcOpen     map[uint32]bool // service-originated request ids we have not answered yet
+	deferred    []deferredAns
+	owed        int // service requests received and never answered (stdin closed)
+	closed      bool
+	viol        *Violation
+	log         []string
+	svcRequests int
+	disposedAck map[int]bool
+}
+
+func (c *svcClient) fail(class, f string, a ...interface{}) {
+	if c.viol == nil {
+		c.viol = &Violation{Class: class, Key: class, Detail: fmt.Sprintf(f, a...)}
+	}
+}
+
+func (c *svcClient) request(desc string, v map[string]interface{}) uint32 {
+	id := c.nextID
+	c.nextID++
+	c.outstanding[id] = desc
+	c.order = append(c.order, id)
+	c.log = append(c.log, fmt.Sprintf("-> #%d %s", id, desc))
+	c.st.Send(encPacket(id, true, v))
+	return id
+}
+
+// handle processes the bytes received so far.
+func (c *svcClient) handle(b []byte) {
+	c.buf = append(c.buf, b...)
+	for c.viol == nil {
+		if len(c.buf) < 4 {
+			return
+		}
+		n := binary.LittleEndian.Uint32(c.buf)
+		if uint32(len(c.buf)-4) < n {
+			return
+		}
+		pkt := c.buf[4 : 4+n]
+		c.buf = c.buf[4+n:]
+		if !c.gotVersion {
+			c.gotVersion = true
+			if string(pkt) != verifsvc.Version {
+				c.fail("service-bad-version", "first packet is %q, expected the version %q", pkt, verifsvc.Version)
+			}
+			continue
+		}
+		d := &decoder{b: pkt}
+		head := d.u32()
+		val := d.value(0)
+		if d.err != "" || len(d.b) != 0 {
+			c.fail("service-malformed-packet", "packet from the service does not decode cleanly (%s, %d trailing bytes): interleaved or corrupted output", d.err, len(d.b))
+			return
+		}
+		id, isResponse := head>>1, head&1 == 1
+		if isResponse {
+			desc, ok := c.outstanding[id]
+			if !ok {
+				if _, dup := c.responses[id]; dup {
+					c.fail("service-duplicate-response", "second response for request #%d", id)
+				} else {
+					c.fail("service-unknown-response-id", "response carries id %d which no outstanding request has", id)
+				}
+				return
+			}
+			delete(c.outstanding, id)
+			c.responses[id] = val
+			c.log = append(c.log, fmt.Sprintf("<- #%d response to %s", id, desc))
+			c.checkResponse(id, desc, val)
+			continue
+		}
+		// a request from the service (plugin callback, on-end, ping)
+		m, _ := val.(map[string]interface{})
+		cmd, _ := m["command"].(string)
+		if c.svcOpen[id] {
+			c.fail("service-reused-request-id", "service request id %d (%s) is used while an earlier request with that id is unanswered", id, cmd)
+			return
+		}
+		c.svcOpen[id] = true
+		c.svcRequests++
+		c.log = append(c.log, fmt.Sprintf("<- service request #%d %s", id, cmd))
+		var resp map[string]interface{}
+		switch cmd {
+		case "on-start", "on-end":
+			resp = map[string]interface{}{"errors": []interface{}{}, "warnings": []interface{}{}}
+			if cmd == "on-end" && c.g.n(10) == 0 {
+				resp["errors"] = []interface{}{map[string]interface{}{"id": "", "pluginName": "host", "text": "on-end says no", "location": nil, "notes": []interface{}{}, "detail": -1}}
+			}
+		case "on-resolve", "on-load":
+			resp = map[string]interface{}{}
+		case "ping":
+			resp = map[string]interface{}{}
+		default:
+			resp = map[string]interface{}{}
+		}
+		ans := encPacket(id, false, resp)
+		if c.closed {
+			c.owed++
+			continue
+		}
+		if c.g.n(3) == 0 {
+			c.deferred = append(c.deferred, deferredAns{id, ans}) // answer later, possibly out of order
+		} else {
+			delete(c.svcOpen, id)
+			c.st.Send(ans)
+		}
+	}
+}
+
+func (c *svcClient) flushDeferred() {
+	for len(c.deferred) > 0 {
+		i := c.g.n(len(c.deferred))
+		ans := c.deferred[i]
+		c.deferred = append(c.deferred[:i:i], c.deferred[i+1:]...)
+		if c.closed {
+			c.owed++
+			continue
+		}
+		delete(c.svcOpen, ans.id)
+		c.st.Send(ans.pkt)
+	}
+}
+
+func (c *svcClient) checkResponse(id uint32, desc string, val interface{}) {
+	m, ok := val.(map[string]interface{})
+	if !ok {
+		c.fail("service-bad-response", "response to #%d (%s) is not a map", id, desc)
+		return
+	}
+	switch {
+	case strings.HasPrefix(desc, "bogus"), strings.HasPrefix(desc, "resolve-inactive"):
+		if _, ok := m["error"]; !ok {
+			c.fail("service-bad-response", "response to #%d (%s) should carry an error: %v", id, desc, m)
+		}
+	case strings.HasPrefix(desc, "transform"):
+		if _, ok := m["code"]; !ok {
+			if _, ok := m["error"]; !ok {
+				c.fail("service-bad-response", "transform response #%d has neither code nor error", id)
+			}
+		}
+	case strings.HasPrefix(desc, "build"), strings.HasPrefix(desc, "context"):
+		if _, ok := m["errors"]; !ok {
+			if _, ok := m["error"]; !ok {
+				c.fail("service-bad-response", "build response #%d has neither errors nor error: %v", id, m)
+			}
+		}
+	case strings.HasPrefix(desc, "rebuild-after-dispose"):
+		if _, ok := m["error"]; !ok {
+			c.fail("service-work-after-dispose", "rebuild on a key whose dispose had already been answered succeeded: %v", m)
+		}
+	case strings.HasPrefix(desc, "dispose"):
+		var key int
+		fmt.Sscanf(desc, "dispose key=%d", &key)
+		c.disposedAck[key] = true
+	}
+}
+
+// pump reads until every outstanding request of ours is answered (or the stream ends).
+func (c *svcClient) pump(all bool) bool {
+	for c.viol == nil && len(c.outstanding) > 0 {
+		b, got, ok := c.st.TryRecv()
+		if !ok {
+			return false
+		}
+		if got {
+			c.handle(b)
+			continue
+		}
+		if len(c.deferred) > 0 {
+			c.flushDeferred()
+			continue
+		}
+		if !all {
+			return true
+		}
+		b, ok = c.st.Recv()
+		if !ok {
+			return false
+		}
+		c.handle(b)
+	}
+	c.flushDeferred()
+	return true
+}
+
+func scenarioC20Service(rc *RunCtx) *Violation {
+	g := rc.G
+	p := GenProject(g, "/p")
+	if len(p.Mods) > 6 {
+		for _, m := range p.Mods[6:] {
+			m.Deleted = true
+		}
+	}
+	for _, m := range p.Mods {
+		m.Feat &^= FeatWarn | FeatSourceMapComment
+	}
+	d := newDisk(g)
+	p.WriteTo(d, false)
+	abrupt := g.n(4) == 0 // close stdin at an arbitrary point instead of gracefully
+	st := &verifsim.Stdio{Frag: verifsim.NewTape(uint64(g.n(1<<30)), 1<<16)}
+	c := &svcClient{st: st, g: g, outstanding: map[uint32]string{}, responses: map[uint32]interface{}{}, svcOpen: map[uint32]bool{}, disposedAck: map[int]bool{}}
+
+	entries := []interface{}{}
+	for _, e := range p.EntryPaths() {
+		entries = append(entries, []interface{}{"", e})
+	}
+	plugins := func() []interface{} {
+		return []interface{}{map[string]interface{}{
+			"name": "hostplugin", "onStart": true, "onEnd": g.n(2) == 0,
+			"onResolve": []interface{}{map[string]interface{}{"id": 1, "filter": ".*", "namespace": ""}},
+			"onLoad":    []interface{}{map[string]interface{}{"id": 2, "filter": "\\.js$", "namespace": ""}},
+		}}
+	}
+	buildReq := func(key int, context bool, withPlugins bool) map[string]interface{} {
+		m := map[string]interface{}{
+			"command": "build", "key": key, "entries": entries, "write": false, "context": context,
+			"flags":         []interface{}{"--bundle", "--outdir=out", "--log-level=silent", "--metafile", "--external:react", "--external:react/jsx-runtime"},
+			"stdinContents": nil, "stdinResolveDir": nil, "absWorkingDir": p.Root, "nodePaths": []interface{}{},
+		}
+		if withPlugins {
+			m["plugins"] = plugins()
+		}
+		return m
+	}
+
+	nSteps := 2 + g.n(8)
+	var desc []string
+	svcReturned := false
+	var cutAt int = -1
+	if abrupt {
+		cutAt = g.n(nSteps + 1)
+	}
+	s := rc.Sim(SimOpts{Disk: d, Stdio: st, MaxSteps: 4000000}, func() {
+		var wg sync.WaitGroup
+		wg.Add(1)
+		verifsim.Go(func() {
+			defer wg.Done()
+			verifsvc.RunService(false)
+			svcReturned = true
+			st.CloseOut()
+		})
+		key := 1
+		var contexts []int
+		for step := 0; step < nSteps && c.viol == nil; step++ {
+			if step == cutAt {
+				break
+			}
+			switch g.n(10) {
+			case 0, 1:
+				c.request(fmt.Sprintf("build key=%d", key), buildReq(key, false, g.n(2) == 0))
+				desc = append(desc, "build")
+				key++
+			case 2, 3:
+				c.request(fmt.Sprintf("context key=%d", key), buildReq(key, true, g.n(2) == 0))
+				contexts = append(contexts, key)
+				desc = append(desc, fmt.Sprintf("context(%d)", key))
+				key++
+			case 4, 5:
+				if len(contexts) > 0 {
+					k := contexts[g.n(len(contexts))]
+					if c.disposedAck[k] {
+						c.request(fmt.Sprintf("rebuild-after-dispose key=%d", k), map[string]interface{}{"command": "rebuild", "key": k})
+					} else {
+						c.request(fmt.Sprintf("rebuild key=%d", k), map[string]interface{}{"command": "rebuild", "key": k})
+					}
+					desc = append(desc, fmt.Sprintf("rebuild(%d)", k))
+				}
+			case 6:
+				if len(contexts) > 0 {
+					k := contexts[g.n(len(contexts))]
+					c.request(fmt.Sprintf("cancel key=%d", k), map[string]interface{}{"command": "cancel", "key": k})
+					desc = append(desc, fmt.Sprintf("cancel(%d)", k))
+				}
+			case 7:
+				c.request("transform", map[string]interface{}{"command": "transform", "flags": []interface{}{"--loader=ts", "--minify"}, "inputFS": false, "input": []byte("let x: number = 1 + 2; export { x }")})
+				desc = append(desc, "transform")
+			case 8:
+				switch g.n(4) {
+				case 0:
+					c.request("bogus", map[string]interface{}{"command": "frobnicate"})
+				case 1:
+					c.request("resolve-inactive", map[string]interface{}{"command": "resolve", "key": 9999, "path": "./x"})
+				case 2:
+					c.request("format-msgs", map[string]interface{}{"command": "format-msgs", "isWarning": g.n(2) == 0, "messages": []interface{}{map[string]interface{}{"id": "", "pluginName": "", "text": "hello", "location": nil, "notes": []interface{}{}, "detail": -1}}})
+				case 3:
+					c.request("analyze-metafile", map[string]interface{}{"command": "analyze-metafile", "metafile": `{"inputs":{},"outputs":{}}`, "color": false, "verbose": false})
+				}
+				desc = append(desc, "misc")
+			case 9:
+				if len(contexts) > 0 {
+					k := contexts[g.n(len(contexts))]
+					c.request(fmt.Sprintf("dispose key=%d", k), map[string]interface{}{"command": "dispose", "key": k})
+					desc = append(desc, fmt.Sprintf("dispose(%d)", k))
+				}
+			}
+			if g.n(3) == 0 {
+				c.pump(true) // barrier: wait for everything so far
+			} else {
+				c.pump(false)
+			}
+		}
+		if !abrupt {
+			// graceful end: everything answered, every context disposed, then EOF
+			c.pump(true)
+			for _, k := range contexts {
+				c.request(fmt.Sprintf("dispose key=%d", k), map[string]interface{}{"command": "dispose", "key": k})
+			}
+			c.pump(true)
+			st.CloseIn()
+		} else {
+			// abrupt end: possibly in the middle of a packet
+			if g.n(2) == 0 {
+				pkt := encPacket(c.nextID, true, map[string]interface{}{"command": "transform", "flags": []interface{}{}, "inputFS": false, "input": []byte("1+1")})
+				st.Send(pkt[:1+g.n(len(pkt)-1)])
+			}
+			st.CloseIn()
+			c.closed = true
+		}
+		// drain whatever the service still writes until its loop returns
+		for c.viol == nil {
+			b, ok := st.Recv()
+			if !ok {
+				break
+			}
+			c.handle(b)
+			c.flushDeferred()
+		}
+		verifsim.Yield("harness", "wait<")
+		wg.Wait()
+		verifsim.Yield("harness", "wait>")
+	})
+	rc.Stats.Builds++
+	rc.Note(fmt.Sprintf("svc:%s abrupt=%v cut=%d", strings.Join(desc, ","), abrupt, cutAt))
+	rc.Sample("service_session", map[string]interface{}{"requests": desc, "abrupt_eof": abrupt, "log_head": head(c.log, 40), "bytes_in": st.BytesIn, "bytes_out": st.BytesOut, "fragmented_sends": st.ShortReads})
+	rc.Probe("service_session")
+	rc.Stats.Probes["service_requests_from_service"] += c.svcRequests
+	rc.Stats.Probes["short_stdin_read"] += st.ShortReads
+	if abrupt {
+		rc.Probe("service_abrupt_eof")
+	}
+	if c.viol != nil {
+		c.viol.Detail += "; session: " + strings.Join(head(c.log, 60), " | ")
+		return c.viol
+	}
+	if s.Panic != nil && svcReturned && strings.Contains(panicText(s), "main bubble goroutine has exited") {
+		// The service's writer goroutine ranges over a channel that is never closed: it
+		// is meant to die with the process when main returns. Not a leak of a build.
+		rc.Probe("service_writer_goroutine_left_at_exit")
+	} else if s.Panic != nil {
+		txt := panicText(s)
+		// After an abrupt EOF the service may legitimately wait forever for answers
+		// the host can no longer send, or for contexts nobody disposed.
+		if abrupt && strings.Contains(txt, "deadlock") {
+			rc.Probe("service_waits_after_abrupt_eof")
+			return nil
+		}
+		v := abnormal(s, "stdio service session "+strings.Join(desc, ","))
+		v.Detail += "; session: " + strings.Join(head(c.log, 60), " | ")
+		return v
+	}
+	if !abrupt {
+		if !svcReturned {
+			return &Violation{Class: "service-did-not-exit", Key: "graceful", Detail: "the service loop did not return after a graceful end of the session: " + strings.Join(head(c.log, 60), " | ")}
+		}
+		if len(c.outstanding) > 0 {
+			var ids []string
+			for id, dsc := range c.outstanding {
+				ids = append(ids, fmt.Sprintf("#%d %s", id, dsc))
+			}
+			sort.Strings(ids)
+			return &Violation{Class: "service-request-unanswered", Key: "graceful", Detail: fmt.Sprintf("requests never answered although the session ended gracefully: %v; session: %s", ids, strings.Join(head(c.log, 60), " | "))}
+		}
+		rc.Probe("service_all_requests_answered_once")
+	}
+	return nil
+}
+
+func head(xs []string, n int) []string {
+	if len(xs) > n {
+		return xs[:n]
+	}
+	return xs
+}
